@@ -7,6 +7,15 @@ RULES = {
     "R-LINK": ("rules.accounting", "r_link"),
     "R-WINDOW": ("rules.accounting", "r_window"),
     "R-BULKDROP-GUARD": ("rules.accounting", "r_bulkdrop_guard"),
+    "R-INFALLIBLE": ("rules.fallible", "r_infallible"),
+    "R-FALLIBLE-THREAD": ("rules.fallible", "r_fallible_thread"),
+    "R-FALLIBLE-NOPANIC": ("rules.fallible", "r_fallible_nopanic"),
+    "R-ERR-CLEAN": ("rules.fallible", "r_err_clean"),
+    "R-AUTO": ("rules.typelevel", "r_auto"),
+    "R-VARIANCE": ("rules.typelevel", "r_variance"),
+    "R-SIG-REGION": ("rules.typelevel", "r_sig_region"),
+    "R-MUT-FROM-MUT": ("rules.typelevel", "r_mut_from_mut"),
+    "R-RAW-ESCAPE": ("rules.typelevel", "r_raw_escape"),
 }
 
 # rules that only exist when a feature is compiled in: rule -> configs where it is evaluated
@@ -21,6 +30,26 @@ PROPS = {
                    "bulk destructor runs are guarded by a table reset (R-BULKDROP-GUARD)",
         "not_decided": "that a guard closure restores exactly the right counts (only necessary conditions); leak-vs-drop accounting of individual elements",
     },
+}
+
+PROPS["C12"] = {
+    "rules": ["R-FALLIBLE-THREAD", "R-FALLIBLE-NOPANIC", "R-ERR-CLEAN", "R-INFALLIBLE", "R-WINDOW"],
+    "level": "other",
+    "decided": "the public try_reserve passes Fallible and every function of the reservation call tree threads its own fallibility parameter unchanged down to the allocator call (R-FALLIBLE-THREAD); "
+               "no explicit panic site is reachable from try_reserve outside debug assertions and the Infallible arms (R-FALLIBLE-NOPANIC, 69 bodies); "
+               "every error exit of the call tree precedes the first write to the caller's table and follows no successful allocation, so on error contents, len and allocation are as before and nothing leaks (R-ERR-CLEAN); "
+               "errors arise only from Fallibility::{capacity_overflow, alloc_err} (R-INFALLIBLE); the new table is fully built under a guard before the old one is touched (R-WINDOW on resize_inner)",
+    "not_decided": "the numeric post-condition capacity() >= len()+additional on success; that the arithmetic guards compute the right bounds (see C17)",
+}
+
+PROPS["C16"] = {
+    "rules": ["R-AUTO", "R-VARIANCE", "R-SIG-REGION", "R-MUT-FROM-MUT", "R-RAW-ESCAPE"],
+    "level": "proof",
+    "decided": "for every effectively-public type: the exact set of per-parameter bounds under which rustc's trait solver proves Send / Sync is at least what the type's access class requires (R-AUTO); "
+               "every type that can hand out &mut with one of its own lifetimes is invariant in what it can write through, by rustc's variance inference (R-VARIANCE); "
+               "every borrowed region in a public return type is tied to an argument (R-SIG-REGION) and mutable/owning access is only derived from an exclusive borrow or a by-value mutable handle of the same lifetime (R-MUT-FROM-MUT); "
+               "no raw handle type escapes through a public signature (R-RAW-ESCAPE)",
+    "not_decided": "nothing of the property's three clauses is left to runtime; outside the claim: the access-class table itself (reviewed by hand), configurations that cannot be type-checked here",
 }
 
 NOT_APPLICABLE = {
